@@ -236,6 +236,7 @@ type cafsCfg struct {
 	rng           *rand.Rand
 	schedFailures int
 	dumpKeys      func(map[string]interface{})
+	noVerify      bool // store instances built with VerifyHash(false): the bytes must come back all the same
 }
 
 const stepWait = 3 * time.Second
@@ -248,6 +249,9 @@ func newCafs(cfg *cafsCfg, backend storage.Store, cc int) (cafs.Fs, error) {
 		cafs.Prefetch(cfg.prefetch),
 		cafs.WithRetry(false),
 		cafs.Logger(zap.NewNop()),
+	}
+	if cfg.noVerify {
+		opts = append(opts, cafs.VerifyHash(false))
 	}
 	if cfg.cache1 {
 		opts = append(opts, cafs.CacheSize(cfg.ref.Lambda))
@@ -282,7 +286,7 @@ func runCafsBehaviour(cfg *cafsCfg, i int, line []byte, r *vutil.BehResult) {
 		r.Sample = json.RawMessage(line)
 	}
 	w := store.NewWorld()
-	ctl := &store.Ctl{Name: "writer"}
+	ctl := &store.Ctl{Name: "writer", PlainReaders: cfg.noVerify}
 	var backend storage.Store
 	v := store.NewView(w, "blob", ctl)
 	if cfg.crc {
@@ -820,6 +824,7 @@ func cafsReplay(args []string) error {
 	reads := fl.String("reads", "full", "full|light|none")
 	seed := fl.Uint64("seed", 1, "seed")
 	keysOut := fl.String("keys-out", "", "dump (content, key) pairs for the independent hash oracle")
+	noVerify := fl.Bool("noverify", false, "build the store instances with VerifyHash(false)")
 	leafCycle := fl.String("leaf-cycle", "", "comma separated leaf sizes used in turn by the behaviours of ONE process (state shared between store instances)")
 	_ = fl.Parse(args)
 	var cycle []int
@@ -829,7 +834,7 @@ func cafsReplay(args []string) error {
 		}
 	}
 	cfg := &cafsCfg{ref: refine{L: *cells, Lambda: *lambda, Boundary: *boundary, Seed: *seed}, style: *style, crc: *crc,
-		prefetch: *prefetch, cache1: *cache1, sched: *sched, reads: *reads, rng: rand.New(rand.NewSource(int64(*seed)))}
+		prefetch: *prefetch, cache1: *cache1, sched: *sched, reads: *reads, rng: rand.New(rand.NewSource(int64(*seed))), noVerify: *noVerify}
 	var kf *os.File
 	if *keysOut != "" && os.Getenv("VH_CHILD") != "" {
 		var err error
